@@ -905,3 +905,93 @@ def alarm_class_reassignment(src):
     r = Reader()
     r.__class__ = Writer
     r.apply(src)
+
+
+@dataclass
+class InitFalseFirst:
+    computed: object = field(init=False, default=None)
+    font: object = None
+
+    def touch(self):
+        self.font.width = 1
+
+
+def alarm_dataclass_init_false_field_skipped(src):
+    InitFalseFirst(src).touch()
+
+
+def alarm_dataclass_starred_args(src):
+    args = [deepcopy(src), src]
+    Opts(*args).other.width = 1
+
+
+# ---- `x.f = []` ... x.f: analysed code that runs IMPLICITLY in between may have rebound the field ---------------------------
+class Acc3:
+    def __init__(self):
+        self.items = []
+        self.src = None
+
+    @property
+    def rebind(self):
+        self.items = [self.src]
+        return 1
+
+
+def alarm_strong_field_read_property_rebinds(src):
+    a = Acc3()
+    a.src = src
+    a.items = []
+    a.rebind  # a property read runs analysed code that REBINDS the field
+    for i in a.items:
+        i.width = 1
+
+
+class _Rebinder:
+    def __init__(self, holder, src):
+        self.holder = holder
+        self.src = src
+
+    def __add__(self, other):
+        self.holder.items = [self.src]
+        return self
+
+    def __str__(self):
+        self.holder.items = [self.src]
+        return "x"
+
+
+def alarm_strong_field_read_operator_between(src):
+    h = Acc3()
+    r = _Rebinder(h, src)
+    h.items = []
+    r + 1  # runs _Rebinder.__add__
+    for i in h.items:
+        i.width = 1
+
+
+def alarm_strong_field_read_dunder_in_library_call(src):
+    h = Acc3()
+    r = _Rebinder(h, src)
+    h.items = []
+    str(r)  # library code runs _Rebinder.__str__
+    for i in h.items:
+        i.width = 1
+
+
+def alarm_strong_field_read_dunder_of_element(src):
+    h = Acc3()
+    rs = [_Rebinder(h, src)]
+    h.items = []
+    print("%s" % rs[0])
+    for i in h.items:
+        i.width = 1
+
+
+def ok_strong_field_read_no_analysed_code_between(src):
+    h = Acc3()
+    h.items = [src]
+    n = len(src.glyphs) + 1
+    h.items = []
+    print("%s" % n)
+    for i in h.items:
+        i.width = 1
